@@ -228,7 +228,11 @@ func (e *env) internal(rt route, f form, c cred) result {
 			e.r.Violation("C04/audit-granted/"+c.class, fmt.Sprintf("audit log shows AccessGranted for credential %s on %s %q", c.class, effectiveMethod(rt, f), f.target), w)
 		}
 		if len(res.changed) > 0 {
-			e.r.Violation("C04/side-effect/"+f.class, fmt.Sprintf("node state changed after a request without conforming token (%s %q, credential %s, answer %d): %v",
+			site := c.class
+			if e.bypass[f.class] {
+				site = f.class
+			}
+			e.r.Violation("C04/side-effect/"+site, fmt.Sprintf("node state changed after a request without conforming token (%s %q, credential %s, answer %d): %v",
 				effectiveMethod(rt, f), f.target, c.class, res.o.status, res.changed), w)
 		}
 	}
